@@ -25,7 +25,7 @@ class Gen:
     """Structured, mostly-valid histories; collision-heavy id pools; every choice from one PRNG."""
 
     def __init__(self, rnd, weights=None, npeers=3, idpool=(1, 2, 3), maxlen=30, p_fail=0.15, big_seids=True,
-                 txseq0_choices=(0, 5, 2**24 - 2, 2**24 - 1), maxretrans_choices=(0, 1, 2, 3), p_panic=0.0):
+                 txseq0_choices=(0, 5, 2**24 - 2, 2**24 - 1), maxretrans_choices=(0, 1, 2, 3), p_panic=0.0, p_alias=0.0):
         self.r = rnd
         self.w = dict(asr=6, est=14, mod=22, dele=8, hb=3, dup=8, usa=8, dld=5, timeout=8, srr=6, otherreq=2, otherrsp=2)
         if weights:
@@ -33,6 +33,7 @@ class Gen:
         self.npeers, self.idpool, self.maxlen, self.p_fail = npeers, list(idpool), maxlen, p_fail
         self.big_seids = big_seids
         self.txseq0_choices, self.maxretrans_choices = txseq0_choices, maxretrans_choices
+        self.p_alias = p_alias      # share of requests sent from the alias socket of a peer (same IP address, port 9805)
         self.p_panic = p_panic      # share of est/mod requests during which one driver call panics (contained: fix 242a7e8)
 
     def ids(self, kmax=2, none_p=0.04):
@@ -135,6 +136,7 @@ class Gen:
         n = r.randint(max(3, self.maxlen // 3), self.maxlen)
         evs = []
         seqs = [r.randrange(1, 50) for _ in range(self.npeers)]
+        seqs += [0] * (8 - len(seqs))
         nsess = 0
         nodes = list(range(self.npeers))
         sent = []          # previous recv events (for duplicates)
@@ -163,6 +165,11 @@ class Gen:
             return r.choice(live + [0]) if live else 0
 
         def recv(peer, msg, with_env=True):
+            if self.p_alias and r.random() < self.p_alias:
+                # the same control-plane host, another source port: another peer as far as PFCP is concerned. Half of them
+                # re-use the sequence number the host's main socket used last (never a retransmission)
+                seqs[peer + 4] = seqs[peer] - 1 if r.random() < 0.5 else seqs[peer + 4]
+                peer += 4
             seqs[peer] += 1
             ev = {"t": "recv", "peer": peer, "seq": seqs[peer], "msg": msg}
             if with_env:
@@ -196,6 +203,8 @@ class Gen:
                 evs.append(recv(p, {"k": "hb"}, with_env=False))
             elif k == "dup" and sent:
                 evs.append(dict(r.choice(sent[-6:])))
+                if self.p_alias and r.random() < self.p_alias:
+                    evs[-1]["peer"] = (evs[-1]["peer"] + 4) % 8      # same bytes from the other port: a first copy
             elif k == "usa":
                 ev = {"t": "report", "seid": seid(),
                       "items": [{"usa": self.rpt(r.choice(self.idpool))} for _ in range(r.choice([1, 1, 2, 3]))]}
@@ -228,6 +237,8 @@ class Gen:
                     p, q = outstanding.pop(r.randrange(len(outstanding)))
                     if r.random() < 0.15:
                         p = r.randrange(self.npeers)        # wrong peer
+                    if self.p_alias and r.random() < self.p_alias:
+                        p += 4                              # right host, wrong port
                 hdr = r.choice([0, 0, 10, 11, 77, 1, 2, 2**64 - 1])
                 evs.append({"t": "recv", "peer": p, "seq": q, "msg": {"k": "srr", "hdr": hdr}})
                 self.env(evs[-1])
